@@ -27,6 +27,10 @@ def resolve_type(I, ref):
     return I.import_attr(mod, name)
 
 
+def rng_(bits, signed):
+    return (-(1 << (bits - 1)), (1 << (bits - 1)) - 1) if signed else (0, (1 << bits) - 1)
+
+
 def check(rep, ctx):
     P = ctx.plans
     I, D, A = P.I, P.D, P.A
@@ -159,6 +163,66 @@ def check(rep, ctx):
                             issues = [("T-?", "time conversion not understood", "")]
                         rep.check(R_E, not issues, construct=f"kio.serial.{side}:{name}", stmt=timeflow.show(d["conv"]),
                                   message="; ".join(f"{r}: {m}" for r, m, _ in issues), file=file, line=rec["line"])
+    # the guards of an integer writer admit every value of its documented domain ------------------------------
+    from ..grammar import eval_int_term, domain_points
+    R_D = rep.rule("C11-w-domain", "an integer writer raises for no value of the domain its encoding is defined on (range guards are "
+                   "evaluated at the boundary values of the domain)", floor=12,
+                   necessary_because="a magnitude test abs(v) >> 31 rejects -2**31, which has the zig-zag encoding ff ff ff ff 0f")
+    W_DOMAIN = {"write_int8": rng_(8, True), "write_int16": rng_(16, True), "write_int32": rng_(32, True), "write_int64": rng_(64, True),
+                "write_uint8": rng_(8, False), "write_uint16": rng_(16, False), "write_uint32": rng_(32, False), "write_uint64": rng_(64, False),
+                "write_unsigned_varint": (0, 2 ** 31 - 1), "write_unsigned_varlong": (0, 2 ** 63 - 1),
+                "write_signed_varint": rng_(32, True), "write_signed_varlong": rng_(64, True),
+                "write_legacy_array_length": (-1, 2 ** 31 - 1), "write_compact_array_length": (-1, 2 ** 31 - 1)}
+    for name, (lo, hi) in W_DOMAIN.items():
+        rec = prims["writers"].get(name)
+        if rec is None:
+            raise AnalysisError(f"anchor vanished: kio.serial.writers.{name}")
+        d = rec.get("desc") or {}
+        if d.get("k") != "scalar":
+            continue  # reported as not understood / by C11-function
+        bad = []
+        for g in d.get("guards") or []:
+            for v in domain_points(lo, hi):
+                r = eval_int_term(g["cond"], v)
+                if r is not None and bool(r) != bool(g["holds"]):
+                    bad.append((v, g))
+                    break
+        rep.check(R_D, not bad, construct=f"kio.serial.writers:{name}", stmt=f"{name}: guards {[g['cond'] for g in d.get('guards') or []]}",
+                  message="; ".join(f"the writer raises {'/'.join(g.get('else') or ['?'])} for {v}, which is inside its domain [{lo}, {hi}] "
+                                    f"(guard {g['cond']})" for v, g in bad), file=wfile, line=rec["line"])
+    R_RD = rep.rule("C11-r-domain", "a reader raises for no wire value of the domain its writer emits (range guards on the prefix value are "
+                    "evaluated at the boundary values of that domain)", floor=20,
+                    necessary_because="an upper bound derived from whole seconds rejects 9999-12-31T23:59:59.001Z..999Z, which the writer emits")
+    DT_MAX_MS = 253402300799999  # 9999-12-31T23:59:59.999Z
+    R_DOMAIN = {"read_int8": rng_(8, True), "read_int16": rng_(16, True), "read_int32": rng_(32, True), "read_int64": rng_(64, True),
+                "read_uint8": rng_(8, False), "read_uint16": rng_(16, False), "read_uint32": rng_(32, False), "read_uint64": rng_(64, False),
+                "read_unsigned_varint": (0, 2 ** 31 - 1), "read_unsigned_varlong": (0, 2 ** 63 - 1),
+                "read_signed_varint": rng_(32, True), "read_signed_varlong": rng_(64, True),
+                "read_legacy_array_length": (-1, 2 ** 31 - 1), "read_compact_array_length": (0, 2 ** 31),
+                "read_datetime_i64": (0, DT_MAX_MS), "read_nullable_datetime_i64": (0, DT_MAX_MS),
+                "read_timedelta_i32": rng_(32, True), "read_timedelta_i64": rng_(32, True),
+                "read_legacy_string": (0, 32767), "read_nullable_legacy_string": (0, 32767),
+                "read_legacy_bytes": (0, 2 ** 31 - 1), "read_nullable_legacy_bytes": (0, 2 ** 31 - 1),
+                "read_compact_string": (1, 2 ** 31 - 1), "read_compact_string_nullable": (1, 2 ** 31 - 1),
+                "read_compact_string_as_bytes": (1, 2 ** 31 - 1), "read_compact_string_as_bytes_nullable": (1, 2 ** 31 - 1)}
+    for name, (lo, hi) in R_DOMAIN.items():
+        rec = prims["readers"].get(name)
+        if rec is None:
+            raise AnalysisError(f"anchor vanished: kio.serial.readers.{name}")
+        d = rec.get("desc") or {}
+        if d.get("k") not in ("scalar", "lenpref", "array"):
+            continue
+        bad = []
+        pts = domain_points(lo, hi) + ([DT_MAX_MS - 999, DT_MAX_MS - 998, DT_MAX_MS - 1] if hi == DT_MAX_MS else [])
+        for g in d.get("range_guards") or []:
+            for v in pts:
+                r = eval_int_term(g["cond"], v)
+                if r is not None and bool(r) != bool(g["holds"]):
+                    bad.append((v, g))
+                    break
+        rep.check(R_RD, not bad, construct=f"kio.serial.readers:{name}", stmt=f"{name}: guards {[g['cond'] for g in d.get('range_guards') or []]}",
+                  message="; ".join(f"the reader raises {'/'.join(g.get('else') or ['?'])} for the wire value {v}, which is inside the domain "
+                                    f"[{lo}, {hi}] its writer emits (guard {g['cond']})" for v, g in bad), file=rfile, line=rec["line"])
     # every raw read of the readers module is a checked exact read ---------------------------------------------
     R_X = rep.rule("C11-exact-reads", "every read in kio.serial.readers is length-checked with equality before its bytes are used", floor=1,
                    necessary_because="read(n) with a negative n returns everything up to EOF; `len(value) < n` never fires, so 'ff fe hello' "
